@@ -169,6 +169,8 @@ const PIECES: &[&str] = &["\n", "\r", "\r\n", "a", "bc", "é", "→", "😀", "\
 pub const LOOKALIKES: &[&str] = &[
     "\x0b", "\x0c", "\x0e", "\t", "\x08", "\x1c", "\x1d", "\x1e", "\x1f", "\x7f", "\0", "\u{85}", "\u{2028}", "\u{2029}",
     "Ċ", "č", "*", "-", "J", "M", "j", "m", "\x1a", "\x0f", "ʊ", "＊",
+    // first and last character of every UTF-8 length class and of every 4-byte lead byte
+    "\u{7f}", "\u{80}", "\u{7ff}", "\u{800}", "\u{ffff}", "\u{10000}", "\u{3ffff}", "\u{40000}", "\u{fffff}", "\u{100000}", "\u{10ffff}", "\u{fffd}", "\u{d7ff}", "\u{e000}",
 ];
 pub const SMALL_ALPHABET: &[&str] = &["\n", "\r", "a", "é", "😀", "\u{feff}"];
 
@@ -1310,6 +1312,14 @@ impl<'t, 's> Exec<'t, 's> {
             3 => {
                 let got = guarded(|| t1.intersect(t2)).map_err(pc)?;
                 let want = r1.inter(r2);
+                // reach probes depend on the operands only, never on what the code answered
+                if want.is_none() {
+                    if r1.s.max(r2.s) == r1.e.min(r2.e) {
+                        self.stats.bump(C::probe_intersect_touching as usize);
+                    } else if r1.s.max(r2.s) > r1.e.min(r2.e) {
+                        self.stats.bump(C::probe_intersect_none as usize);
+                    }
+                }
                 match (got, want) {
                     (Some(g), Some(w)) => {
                         if iv_of(g) != w {
@@ -1318,12 +1328,11 @@ impl<'t, 's> Exec<'t, 's> {
                             self.push_pool(w);
                         }
                     }
-                    (None, None) => self.stats.bump(C::probe_intersect_none as usize),
+                    (None, None) => {}
                     (Some(g), None) => {
                         if !g.is_empty() {
                             bad.push(format!("{:?}.intersect({:?}) = {:?}, but the sets are disjoint", t1, t2, g));
                         } else {
-                            self.stats.bump(C::probe_intersect_touching as usize);
                             // an empty intersection reported as a position must lie within both covers
                             let gi = iv_of(g);
                             if gi.s < r1.s.max(r2.s) || gi.s > r1.e.min(r2.e) {
